@@ -6,6 +6,8 @@ import math
 from mc.ref import units as R
 
 PID = 'C06'
+# thread bodies (defined with engine E4, mc/checks/c10_sched.py) that exercise this property's code; explored after the parts below
+SCHED_SETS = [('units||units', 'line')]
 LEVEL = 'exploration'
 TECHNIQUE = 'bounded exhaustive enumeration (full product of unit pairs/triples x magnitude alphabet) against an exact-rational SI table'
 RULE = ('cells = all ordered pairs and all ordered triples of units within each of the 7 dimensions; each cell runs every '
